@@ -297,7 +297,8 @@ def run_case(case, judge="c09"):
                 spec2["callback"] = {
                     "conv": str(rng.choice(["kw", "pos"])),
                     "returns": str(rng.choice(["True", "np_true", "one",
-                                               "str", "list", "array"]))}
+                                               "str", "list", "array",
+                                               "array2", "echo"]))}
                 tags.append("cb_returns")
         elif fam == "callback":
             spec2["callback"] = {"conv": str(rng.choice(["kw", "pos"])),
